@@ -258,12 +258,13 @@ func canon(b *strings.Builder, v value.Value, st funcGen.Stack[value.Value], lim
 		b.WriteString("[")
 		n := 0
 		for e, err := range x.Iterate(st) {
-			if err != nil {
-				return err
-			}
 			if limit >= 0 && n == limit {
+				// the host stops here: whatever this element carries (also an error) is not looked at
 				b.WriteString("..")
 				break
+			}
+			if err != nil {
+				return err
 			}
 			if n > 0 {
 				b.WriteString(",")
